@@ -35,7 +35,8 @@ def make_program(prop: str, seed: int, stream: int, scratch: str,
                  mc_decoys: str = 'random', mc_position: Optional[str] = None):
     rng = random.Random(f'{prop}:{seed}:{stream}')
     gen, ent, enc, info = cfggen.gen_shell_case(rng, want_multiclient=want_mc, small=small,
-                                                mc_decoys=mc_decoys, mc_position=mc_position)
+                                                mc_decoys=mc_decoys, mc_position=mc_position,
+                                                mc_shape=stream)
     work = os.path.join(scratch, f'{prop.lower()}_{stream}')
     prog = cxxlab.ShellProgram(gen, ent, enc, info, work)
     case = {'seed': seed, 'stream': stream, 'cfg': enc, 'component': info['fqn'],
